@@ -27,13 +27,14 @@
     allocations / final block size / live blocks of uper_encode_to_new_buffer = `dyn_run` over the chunk sizes the C's own
     uper_encode() hands to a callback for that value.
 Violation kinds: those of c14_util.check_history (+ newbuf-*), correspondence:HeapW.list, correspondence:HeapW.dyn."""
-import os, re
+import os, re, sys
 from vlib import *
 from modbuild import *
 from c14_util import *
 from c14w_enc import *
 
 SYNS = ("ber", "uper", "oer", "xer")
+sys.setrecursionlimit(max(sys.getrecursionlimit(), 40000))      # the recursive values (depth sweeps) are encoded recursively
 
 
 def own_rng(run, salt):
@@ -356,7 +357,7 @@ def wd_histories(run, m, rng, tier):
     vals = []          # (tn, value, label)
     for tn, t in env.items():
         if tn in ("Rec", "RecL", "RecC"):
-            for d in ((5, 40, 150, 400, 1200) if quick else (5, 20, 40, 80, 150, 250, 400, 700, 1200, 3000)):
+            for d in ((5, 40, 150, 400, 1200) if quick else (5, 20, 40, 80, 150, 250, 400, 700, 1200, 2000)):
                 vals.append((tn, deep_value(tn, d), "depth=%d" % d))
             continue
         for _ in range(2 if quick else 5):
